@@ -25,7 +25,7 @@ from vlib import f2b, fs2b, b2f, b2fs, ints
 from props import c01
 
 ID = "C08"
-GEN = ["Combinators", "Leaves", "Misc"]
+GEN = ["Combinators", "Leaves", "Misc", "Dist"]
 RULE = ("random expression trees of array bijections (elementwise leaves with per-element non-default parameters, Chain, Invert, "
         "Concatenate and Stack along every valid axis incl. negative, Partial with int/slice/int-array/bool-array/tuple indices, Reshape, "
         "EmbedCondition, Scan, Vmap with mapped or broadcast parameters and mapped/broadcast condition), ranks 0-3, conditional and "
@@ -268,8 +268,10 @@ def corr(c, tier, rng, n_trees=None):
             except Exception as ex:
                 c.mismatch("chain-slice-declared-shapes", tree=" ".join(node.tokens)[:200], slice=(i, j), exc=repr(ex)[:200])
     if own:
-        from props import c01
+        from props import c01, c03
         c01.scan_correspondence(c, tier, rng)
+        # merge_transforms on nested Transformed (1-3 levels): the generated model of the nest vs the real merged object
+        c03.corr_nested(c, tier, rng, n=20 if tier == "quick" else 120)
     outs = vlib.run_model(lines)
     for line, got, want, info in zip(lines, outs, wants, infos):
         if got.startswith("ERR") or any(isinstance(w, str) for w in want):
@@ -359,6 +361,9 @@ def oracle_violations(node, rng):
 
 def search(hints, tier, rng):
     wit = []
+    # merge_transforms on 2-3 levels of nesting never changes log_prob / sample (shared with C03)
+    from props import c03
+    wit += [dict(w, key="merge_transforms|" + w["key"]) for w in c03.nested_merge_violations(tier, rng) if "merge" in w.get("key", "")]
     for _ in range(80 if tier == "quick" else 600):
         shape = rng.choice(SHAPES)
         try:
